@@ -93,3 +93,31 @@ M("C14", "twin-list-copy", "operators.py", "                vector = individual.
 M("C14", "twin-sum-acc", "operators.py", "            sensitivity = []\n            for child in individual.children:\n                sensitivity.append(abs(individual.costs[0] - child.costs[0]))\n            individual.features['sensitivity'] = sum(sensitivity)\n\n            if len(individual.costs) > self.n:\n                individual.costs[-1] = sum(sensitivity)\n                individual.costs_signed[-2] = sum(sensitivity)\n            else:\n                individual.costs.append(sum(sensitivity))\n                individual.costs_signed.insert(-1, sum(sensitivity))\n",
   "            total = 0.0\n            for child in individual.children:\n                total += abs(child.costs[0] - individual.costs[0])\n            individual.features['sensitivity'] = total\n\n            individual.costs.append(total)\n            individual.costs_signed.insert(-1, total)\n", "H")
 M("C14", "twin-enumerate", "operators.py", "            i = 0\n            for child in individual.children:\n                gradient[i] = ((child.costs[0] - individual.costs[0]) / self.delta)\n                i += 1\n", "            for i, child in enumerate(individual.children):\n                gradient[i] = (child.costs[0] - individual.costs[0]) / self.delta\n", "H")
+
+# ---------------------------------------------------------------- C19
+M("C19", "both-counters", "surrogate.py", "        # evaluate problem\n        value = self.problem.evaluate(individual)\n        # increase counter\n        self.eval_counter += 1\n", "        # evaluate problem\n        value = self.problem.evaluate(individual)\n        # increase counter\n        self.eval_counter += 1\n        self.predict_counter += 1\n")
+M("C19", "count-before-none-test", "surrogate.py", "            values = self.problem.predict(individual)\n            if values is not None:\n                # count prediction\n                self.problem.surrogate.predict_counter += 1\n", "            values = self.problem.predict(individual)\n            self.problem.surrogate.predict_counter += 1\n")
+M("C19", "untrained-predict", "surrogate.py", 'if self.trained and "predict" in dir(self.problem):', 'if "predict" in dir(self.problem):')
+M("C19", "trained-or", "surrogate.py", 'if self.trained and "predict" in dir(self.problem):', 'if self.trained or "predict" in dir(self.problem):')
+M("C19", "double-eval", "surrogate.py", "        value = self.problem.evaluate(individual)\n        # increase counter", "        value = self.problem.evaluate(individual)\n        value = self.problem.evaluate(individual)\n        # increase counter")
+M("C19", "post-processed", "surrogate.py", "                self.train()\n        return value\n", "                self.train()\n        return list(value)\n")
+M("C19", "data-early", "surrogate.py", "        value = self.problem.evaluate(individual)\n        # increase counter\n        self.eval_counter += 1\n        # add training date to surrogate model\n        self.add_data(individual.vector, value)\n", "        self.add_data(individual.vector, None)\n        value = self.problem.evaluate(individual)\n        # increase counter\n        self.eval_counter += 1\n")
+M("C19", "data-twice", "surrogate.py", "        self.add_data(individual.vector, value)\n\n        if self.train_step", "        self.add_data(individual.vector, value)\n        self.add_data(individual.vector, value)\n\n        if self.train_step")
+M("C19", "data-costs", "surrogate.py", "        self.add_data(individual.vector, value)\n", "        self.add_data(individual.vector, individual.costs)\n")
+M("C19", "modulo-before-increment", "surrogate.py", "        value = self.problem.evaluate(individual)\n        # increase counter\n        self.eval_counter += 1\n        # add training date to surrogate model\n        self.add_data(individual.vector, value)\n\n        if self.train_step != -1:\n            if self.eval_counter % self.train_step == 0:\n                # init default regressor\n                if self.regressor is None:\n                    self.init_default_regressor()\n\n                # train model\n                self.train()\n",
+  "        value = self.problem.evaluate(individual)\n        # add training date to surrogate model\n        self.add_data(individual.vector, value)\n\n        if self.train_step != -1:\n            if self.eval_counter % self.train_step == 0:\n                # init default regressor\n                if self.regressor is None:\n                    self.init_default_regressor()\n\n                # train model\n                self.train()\n        # increase counter\n        self.eval_counter += 1\n")
+M("C19", "train-at-minus-one", "surrogate.py", "        if self.train_step != -1:\n            if self.eval_counter % self.train_step == 0:", "        if True:\n            if self.eval_counter % self.train_step == 0:")
+M("C19", "train-not-divisible", "surrogate.py", "if self.eval_counter % self.train_step == 0:", "if self.eval_counter % self.train_step != 0:")
+M("C19", "train-every-time", "surrogate.py", "            if self.eval_counter % self.train_step == 0:\n", "            if self.eval_counter % self.train_step == 0 or self.regressor is None:\n")
+M("C19", "eval-double-count", "surrogate.py", "    def evaluate(self, individual):\n        self.eval_counter += 1\n        return self.problem.evaluate(individual)", "    def evaluate(self, individual):\n        self.eval_counter += 1\n        self.problem.surrogate.eval_counter += 1\n        return self.problem.evaluate(individual)")
+M("C19", "eval-no-count", "surrogate.py", "    def evaluate(self, individual):\n        self.eval_counter += 1\n        return self.problem.evaluate(individual)", "    def evaluate(self, individual):\n        return self.problem.evaluate(individual)")
+M("C19", "eval-rounded", "surrogate.py", "    def evaluate(self, individual):\n        self.eval_counter += 1\n        return self.problem.evaluate(individual)", "    def evaluate(self, individual):\n        self.eval_counter += 1\n        return [round(v, 6) for v in self.problem.evaluate(individual)]")
+M("C19", "scikit-trained-score", "surrogate_scikit.py", "        self.trained = self.score >= self.score_threshold\n        self.trained = True\n", "        self.trained = self.score >= self.score_threshold\n")
+M("C19", "smt-trained-lost", "surrogate_smt.py", "            #    self.lml, self.lml_gradient = self.regressor.log_marginal_likelihood(self.regressor.kernel_.theta, eval_gradient=True)\n\n        self.trained = True\n", "            #    self.lml, self.lml_gradient = self.regressor.log_marginal_likelihood(self.regressor.kernel_.theta, eval_gradient=True)\n")
+M("C19", "add-data-swapped", "surrogate.py", "        self.x_data.append(x)\n        self.y_data.append(y)\n", "        self.x_data.append(y)\n        self.y_data.append(x)\n")
+M("C19", "skip-eval-when-none", "surrogate.py", "        if values is None:\n            # evaluate model\n            values = self.evaluate_individual(individual)\n", "        if values is None and not self.trained:\n            # evaluate model\n            values = self.evaluate_individual(individual)\n")
+# twins
+M("C19", "twin-self-counter", "surrogate.py", "self.problem.surrogate.predict_counter += 1", "self.predict_counter += 1", "H")
+M("C19", "twin-hasattr", "surrogate.py", 'if self.trained and "predict" in dir(self.problem):', 'if self.trained and hasattr(self.problem, "predict"):', "H")
+M("C19", "twin-merged-if", "surrogate.py", "        if self.train_step != -1:\n            if self.eval_counter % self.train_step == 0:\n                # init default regressor\n                if self.regressor is None:\n                    self.init_default_regressor()\n\n                # train model\n                self.train()\n", "        if self.train_step != -1 and self.eval_counter % self.train_step == 0:\n            if self.regressor is None:\n                self.init_default_regressor()\n            self.train()\n", "H")
+M("C19", "twin-eval-temp", "surrogate.py", "    def evaluate(self, individual):\n        self.eval_counter += 1\n        return self.problem.evaluate(individual)", "    def evaluate(self, individual):\n        result = self.problem.evaluate(individual)\n        self.eval_counter += 1\n        return result", "H")
